@@ -40,7 +40,7 @@ CHECKS = {
              "bit-identical gradients at the copy point; SWC cells (radius functions) and synaptic networks with trainables, "
              "groups and clamps are copied, compared, differentiated and edited as well.",
         note="Trusted: TLC. The digest of the scenarios includes the structure arrays (ncomp_per_branch, parents, xyzr) and the original is "
-             "re-simulated after the copy was edited. Known finding F20 (listed for C18 too) is the only history the check steps around."),
+             "re-simulated after the copy was edited."),
     "C12": dict(
         technique="metamorphic re-runs inside the TLA+ solver model (MC_Hines: Isolate a cell of a network, swap sibling leaf "
                   "branches; invariant MetamorphicAgrees over Z_p, parameters keyed by compartment labels), model-checked by TLC; "
@@ -182,8 +182,8 @@ CHECKS = {
              "exist) integrate's output must equal the specification's successor state / integer observation. Recorded random histories "
              "(code -> spec) are validated by TLC against Trace_Module.tla. Second stage: set_ncomp sequences (SetNcomp.tla) on cells "
              "that carry channels, per-branch parameters and groups, compared with the directly built module.",
-        note="Trusted: TLC; probe channels make the dynamics integer exact; one irregular cell, 7 views. Known finding F20 "
-             "is listed in known_findings.json."),
+        note="Trusted: TLC; probe channels make the dynamics integer exact; one irregular cell, 7 views. No known finding is left for this property."
+             ""),
     "C10": dict(
         technique="same TLA+ module specification restricted to the parameter alphabet (insert/set/make_trainable/"
                   "delete_trainables/write_trainables/record) to depth 3; replay with Eff(k) compare and metamorphic "
